@@ -565,8 +565,15 @@ pub fn recognise(s: &str, f: &Features) -> Option<Recognised> {
             return None;
         }
     }
+    // the hfs modifier without a KEM (or the other way round): snow refuses the name at parse time; the name grammar
+    // the property states does not say where such a name is to be refused - not judged
     if f.hfs && (modifiers.contains(&Modifier::Hfs) != kem.is_some()) {
-        return None;
+        dont_care = true;
+    }
+    // Curve448 is in snow's name table but no resolver provides it: whether it counts as a "supported" primitive
+    // name is not judged
+    if dh == "448" {
+        dont_care = true;
     }
     let cipher = fields[3];
     if !(cipher == "ChaChaPoly" || cipher == "AESGCM" || (cipher == "XChaChaPoly" && f.xchacha)) {
